@@ -198,7 +198,7 @@ class TupleT(T):
 class SeqT(T):
     """Sequence container with symbolic length.  kind: list | tuple | ndarray | generator."""
 
-    def __init__(self, elem, kind="list", min_len=0, distinct=False, increasing=False):
+    def __init__(self, elem, kind="list", min_len=0, distinct=False, increasing=False, **kw):
         self.elem, self.kind, self.min_len = elem, kind, min_len
         self.distinct = distinct
         self.increasing = increasing
